@@ -13,6 +13,10 @@ pub mod c09;
 pub mod c10;
 pub mod c11;
 pub mod c12;
+pub mod c13;
+pub mod c14;
+pub mod c15;
+pub mod fac;
 
 pub fn dispatch(args: &Args, rep: &mut Report) {
     match args.prop.as_str() {
@@ -28,6 +32,9 @@ pub fn dispatch(args: &Args, rep: &mut Report) {
         "C10" => c10::run(args, rep),
         "C11" => c11::run(args, rep),
         "C12" => c12::run(args, rep),
+        "C13" => c13::run(args, rep),
+        "C14" => c14::run(args, rep),
+        "C15" => c15::run(args, rep),
         p => {
             eprintln!("unknown property {p}");
             std::process::exit(2);
